@@ -4,6 +4,7 @@ from vlib import *
 import p_text as T
 import p_num as N
 import p_wb as W
+import p_dom as D
 
 
 def tok_to_value(toks, i=0):
@@ -131,6 +132,8 @@ def run(tier):
     ctx.extra.update(documents=len(rows), builds=builds)
     ctx.assumptions += ["the independent RFC 8259 recogniser of the property is the TLA+ module JsonText, evaluated by TLC on the recorded output bytes",
                         "unchecked writes beyond the buffer are observed by ASan (heap write buffers of every starting capacity)"]
+    # life cycle (spec/Sonic.tla): Dump of trees that were parsed, mutated through the API, copied and parsed again
+    D.lifecycle(ctx, "C06", builds[:2], 2 if q else 60, 25 if q else 40, 3)
     ctx.finish(rule="documents parsed from TLC-generated valid texts (all kinds, duplicate keys, every byte value in strings and keys, specials at "
                     "block offsets, wide containers) and re-assembled through the mutation API; serialised into write buffers of ~30 starting "
                     "capacities around the output length and the internal estimate; output validated by TLC (JsonText accepts it and it denotes "
@@ -142,6 +145,9 @@ def replay(path):
     rec = json.load(open(path))
     ctx = Ctx("C06-replay", "quick")
     rp = rec["replay"]
+    if rp["harness"] == "rt_dom.cpp":
+        ctx.cleanup()
+        return D.replay_file(path)
     if rp["harness"] == "Trace_Num":
         rej = N.validate_events(ctx, [rp["event"]], name="replay")
         print("TLC verdict:", "REJECTED" if rej else "accepted")
